@@ -38,7 +38,38 @@
 //!               from the coordinator's wait-for graph. The same holds for every pending, not
 //!               Committing transaction whose deadline had passed for certain when a
 //!               cleanup_timeouts sweep ran (e.g. one left Aborting by mixed votes that nobody
-//!               aborts), whether or not the sweep lists it.
+//!               aborts), whether or not the sweep lists it. The PREPARE of a shard that was
+//!               prepared at the coordinator is also delivered again (retransmission / duplicate
+//!               delivery) while the transaction is pending; the oracle is unchanged: whatever the
+//!               transaction was granted, nothing of it may remain after its completion.
+//!  participant: sequential programs at one real `TxParticipant` (its own LockManager): PREPARE -
+//!               the first one, the same request delivered again while prepared, or a late
+//!               duplicate after the transaction was finished there -, COMMIT / ABORT (also stray and
+//!               duplicate ones), the participant's own timeouts cleanup_stale / recover (timeout 0,
+//!               1 h, and 25 ms against naps of 40 ms) and save_to_store / load_from_store. Requests
+//!               mix operation kinds whose stored entries coincide (Put{"table:k"} / TableInsert{k}).
+//!               A reference table key -> prepared transaction judges every vote (a requested key
+//!               held by another prepared transaction => Conflict naming a holder, nothing granted;
+//!               YES => every requested key held by the requester) and every key's holder after
+//!               every step; when a transaction commits, aborts or times out at the participant no
+//!               lock of it remains (lock table, keys_for_transaction), however often its PREPARE was
+//!               answered.
+//!  coord-threads: 2-5 OS threads run transaction life cycles (begin, handle_prepare + record_vote per
+//!               shard, then commit / abort / complete_abort) over 4-12 shared keys (+ optionally
+//!               4-32 private keys per prepare) through ONE real coordinator, while another thread
+//!               keeps calling release_orphaned_locks (partition start 0 / now + 60 s / u64::MAX) and
+//!               plants orphan locks. No transaction can time out (1 h) or expire (30 s lease, cases
+//!               take milliseconds; anything older than 8 s is not judged). Oracle: (a) a shadow owner
+//!               mark per key, set after a YES vote returned and cleared before the owner's
+//!               completion call: a YES vote on a key marked by another transaction is a grant over a
+//!               held key; (b) a pending transaction (only its own thread completes it) still holds
+//!               every key it was granted; (c) after its completion it holds nothing and is neither
+//!               waiter nor holder in the wait-for graph; (d) planted orphans are gone after a sweep
+//!               and survive release_orphaned_locks(0); (e) at quiescence the lock table and the
+//!               wait-for graph are empty. The orphan sweep and the completion calls are kept apart
+//!               by a harness gate (they take `pending` and the lock tables in opposite orders and
+//!               can block each other for good, which is outside this property); sweeps overlap
+//!               begin / handle_prepare / record_vote freely. Runnable alone (`--part coord-threads`).
 //!  threads    : 2–6 OS threads run transaction life cycles over 4–8 keys on one LockManager (+ one
 //!               WaitForGraph), long timeouts; a shadow owner table is written *after* a grant and
 //!               cleared *before* a release, so a shadow overlap implies a real overlap. A sweeper
@@ -46,12 +77,15 @@
 //!               abandoned transactions (expiry + take-over races); there a shadow overlap only
 //!               counts if the harness' own clock readings prove the earlier holder unexpired.
 //!               Runnable alone with `--part threads` (TSan leg).
-//!  witness    : (`--part witness` only) the two minimal programs behind the findings of this check.
+//!  witness    : (`--part witness` only) the minimal programs behind the findings of this check.
 //!
 //! Violations of a class the reference model can account for exactly (a stale reverse-index entry
 //! after an expired lock was taken over; an aborted / timed-out transaction left as waiter in the
 //! coordinator's graph) are reported once per case at its end and the program continues, so that a
-//! known defect does not hide what lies behind it. Every other violation ends its case.
+//! known defect does not hide what lies behind it. Every other violation ends its case. The same
+//! holds for the locks a completed transaction keeps at the coordinator because its PREPARE was
+//! delivered again after the shard's vote was recorded (`...:handle-of-retransmitted-prepare`; the
+//! harness then drops these locks itself and goes on).
 
 use common::*;
 use parking_lot::Mutex;
@@ -1258,6 +1292,11 @@ struct CTx {
     voted: BTreeSet<usize>,
     /// harness clock after `begin` returned: the coordinator's start stamp is not younger
     begun_by: u64,
+    /// the request each shard's prepare at the coordinator was made with (for retransmission)
+    reqs: BTreeMap<usize, PrepareRequest>,
+    /// lock handles handed out by a re-delivered prepare whose vote the coordinator refused to
+    /// record (the shard had voted already)
+    unrecorded: BTreeSet<u64>,
 }
 
 fn coord_inner(case_seed: u64, r: &mut Report) -> Result<(u64, bool), Fail> {
@@ -1286,16 +1325,34 @@ fn coord_inner(case_seed: u64, r: &mut Report) -> Result<(u64, bool), Fail> {
     let mut next_orphan = 7u64;
     let case_started = Instant::now();
 
-    let completed = |tx: u64, how: &str, all_ids: &[u64], trace: &[String], soft: &mut Vec<Fail>, r: &mut Report| -> Ck {
+    let completed = |tx: u64, how: &str, unrecorded: &BTreeSet<u64>, all_ids: &[u64], trace: &[String], soft: &mut Vec<Fail>, r: &mut Report| -> Ck {
         let lm = coord.lock_manager();
         let g = coord.wait_graph();
         r.count(&format!("coord_completions[{}]", how), 1);
+        if !unrecorded.is_empty() {
+            r.count("coord_completions_after_retransmitted_prepare", 1);
+        }
         let raw = lm.to_serializable();
-        if let Some((k, l)) = raw.locks().iter().find(|(_, l)| l.tx_id == tx) {
-            return fail(
-                format!("coord:lock-remains-after-{}", how),
-                format!("tx {} completed ({}) but the lock table still holds {} (handle {}) for it; program {:?}", tx, how, k, l.lock_handle, trace),
-            );
+        let left: Vec<(&String, u64)> = raw.locks().iter().filter(|(_, l)| l.tx_id == tx).map(|(k, l)| (k, l.lock_handle)).collect();
+        if let Some((k, h)) = left.first() {
+            if left.iter().all(|(_, h)| unrecorded.contains(h)) {
+                // every lock left carries the handle of a re-delivered prepare: the model accounts
+                // for it exactly. Reported at the end of the case; the harness drops the locks
+                // itself and the program goes on.
+                soft.push(Fail::new(
+                    format!("coord:lock-remains-after-{}:handle-of-retransmitted-prepare", how),
+                    format!(
+                        "tx {} completed ({}) but the lock table still holds {:?} for it: its prepare was delivered again after the shard had voted, the grant re-stamped the keys with handle(s) {:?} and the completion released only the handles of the recorded votes; program {:?}",
+                        tx, how, left, unrecorded, trace
+                    ),
+                ));
+                lm.release(tx);
+            } else {
+                return fail(
+                    format!("coord:lock-remains-after-{}", how),
+                    format!("tx {} completed ({}) but the lock table still holds {} (handle {}) for it; program {:?}", tx, how, k, h, trace),
+                );
+            }
         }
         let kft = lm.keys_for_transaction(tx);
         if !kft.is_empty() {
@@ -1326,14 +1383,14 @@ fn coord_inner(case_seed: u64, r: &mut Report) -> Result<(u64, bool), Fail> {
             r.inconclusive("coord case ran longer than 3 s (lock timeout is 30 s): machine stalled");
             return Ok((0, false));
         }
-        let choice = rng.weighted(&[18, 40, 12, 10, 6, 8, 5]);
+        let choice = rng.weighted(&[18, 40, 12, 10, 6, 8, 5, 7]);
         if choice == 0 || (txs.is_empty() && choice != 6) {
             let shards: Vec<usize> = if rng.bool() { vec![0] } else { vec![0, 1] };
             match coord.begin(&"c".to_string(), &shards) {
                 Ok(t) => {
                     trace.push(format!("begin -> tx{} shards {:?}", t.tx_id, shards));
                     all_ids.push(t.tx_id);
-                    txs.push(CTx { id: t.tx_id, shards, voted: BTreeSet::new(), begun_by: now_ms() });
+                    txs.push(CTx { id: t.tx_id, shards, voted: BTreeSet::new(), begun_by: now_ms(), reqs: BTreeMap::new(), unrecorded: BTreeSet::new() });
                     r.count("coord_op[begin]", 1);
                 }
                 Err(e) => trace.push(format!("begin -> Err({})", e)),
@@ -1419,6 +1476,7 @@ fn coord_inner(case_seed: u64, r: &mut Report) -> Result<(u64, bool), Fail> {
                         let blockers: BTreeSet<u64> = keys.iter().filter_map(|k| held.get(k).copied()).filter(|&t| t != id).collect();
                         let mine_before: BTreeSet<String> = held.iter().filter(|(_, t)| **t == id).map(|(k, _)| k.clone()).collect();
                         let vote = coord.handle_prepare(&req);
+                        txs[idx].reqs.insert(shard, req.clone());
                         let vs = match &vote {
                             PrepareVote::Yes { lock_handle, .. } => format!("Yes(h{})", lock_handle),
                             PrepareVote::Conflict { conflicting_tx, .. } => {
@@ -1491,13 +1549,13 @@ fn coord_inner(case_seed: u64, r: &mut Report) -> Result<(u64, bool), Fail> {
                     trace.push(format!("commit(tx{}) -> {}", id, if res.is_ok() { "Ok" } else { "Err" }));
                     r.count("coord_op[commit]", 1);
                     if res.is_ok() {
-                        txs.remove(idx);
+                        let gone_tx = txs.remove(idx);
                         held.retain(|_, t| *t != id);
                         completions += 1;
                         for p in &parts {
                             let _ = p.commit(id);
                         }
-                        completed(id, "commit", &all_ids, &trace, &mut soft, r)?;
+                        completed(id, "commit", &gone_tx.unrecorded, &all_ids, &trace, &mut soft, r)?;
                     }
                 }
                 3 => {
@@ -1505,13 +1563,74 @@ fn coord_inner(case_seed: u64, r: &mut Report) -> Result<(u64, bool), Fail> {
                     trace.push(format!("abort(tx{}) -> {}", id, if res.is_ok() { "Ok" } else { "Err" }));
                     r.count("coord_op[abort]", 1);
                     if res.is_ok() {
-                        txs.remove(idx);
+                        let gone_tx = txs.remove(idx);
                         held.retain(|_, t| *t != id);
                         completions += 1;
                         for p in &parts {
                             let _ = p.abort(id);
                         }
-                        completed(id, "abort", &all_ids, &trace, &mut soft, r)?;
+                        completed(id, "abort", &gone_tx.unrecorded, &all_ids, &trace, &mut soft, r)?;
+                    }
+                }
+                7 => {
+                    // the PREPARE of a shard that was prepared at the coordinator is delivered
+                    // again (retransmission / duplicate delivery) while the transaction is pending
+                    let shards: Vec<usize> = txs[idx].reqs.keys().copied().collect();
+                    if shards.is_empty() || coord.get(id).is_none() {
+                        continue;
+                    }
+                    let shard = shards[rng.below(shards.len())];
+                    let req = txs[idx].reqs[&shard].clone();
+                    let keys: Vec<String> = req.operations.iter().map(|o| o.affected_key().to_string()).collect();
+                    let blockers: BTreeSet<u64> = keys.iter().filter_map(|k| held.get(k).copied()).filter(|&t| t != id).collect();
+                    let mine_before: BTreeSet<String> = held.iter().filter(|(_, t)| **t == id).map(|(k, _)| k.clone()).collect();
+                    let vote = coord.handle_prepare(&req);
+                    r.count("coord_op[retransmitted_prepare]", 1);
+                    match &vote {
+                        PrepareVote::Yes { lock_handle, .. } => {
+                            trace.push(format!("prepare again(tx{}, shard {}, {:?}) -> Yes(h{})", id, shard, keys, lock_handle));
+                            r.count("coord_retransmitted_prepares_answered_yes", 1);
+                            if !blockers.is_empty() {
+                                return fail(
+                                    "coord:prepare-granted-over-held-key",
+                                    format!("re-delivered prepare of tx {} on {:?} voted yes although {:?} hold(s) a requested key; program {:?}", id, keys, blockers, trace),
+                                );
+                            }
+                            for k in &keys {
+                                held.insert(k.clone(), id);
+                            }
+                            let h = *lock_handle;
+                            let rv = coord.record_vote(id, shard, vote.clone());
+                            trace.push(format!("record_vote(tx{}, shard {}) -> {:?}", id, shard, rv));
+                            if rv.is_err() {
+                                txs[idx].unrecorded.insert(h);
+                            }
+                        }
+                        PrepareVote::Conflict { conflicting_tx, .. } => {
+                            conflicts += 1;
+                            trace.push(format!("prepare again(tx{}, shard {}, {:?}) -> Conflict(tx{})", id, shard, keys, conflicting_tx));
+                            if !blockers.is_empty() && !blockers.contains(conflicting_tx) {
+                                return fail("coord:conflict-vote-names-non-holder", format!("re-delivered prepare of tx {} on {:?} names tx {}, holders are {:?}; program {:?}", id, keys, conflicting_tx, blockers, trace));
+                            }
+                            if blockers.is_empty() {
+                                r.count("coord_semantic_refusals", 1);
+                            }
+                            for k in &keys {
+                                if !mine_before.contains(k) && coord.lock_manager().lock_holder(k) == Some(id) {
+                                    return fail(
+                                        "coord:refused-prepare-still-holds-requested-key",
+                                        format!("re-delivered prepare of tx {} on {:?} was refused but lock_holder({}) = tx {}; program {:?}", id, keys, k, id, trace),
+                                    );
+                                }
+                            }
+                            for k in &mine_before {
+                                if coord.lock_manager().lock_holder(k).is_none() {
+                                    held.remove(k);
+                                    r.count("coord_refusal_dropped_earlier_grant", 1);
+                                }
+                            }
+                        }
+                        _ => trace.push(format!("prepare again(tx{}, shard {}, {:?}) -> No", id, shard, keys)),
                     }
                 }
                 4 => {
@@ -1519,13 +1638,13 @@ fn coord_inner(case_seed: u64, r: &mut Report) -> Result<(u64, bool), Fail> {
                     trace.push(format!("complete_abort(tx{}) -> {}", id, if res.is_ok() { "Ok" } else { "Err" }));
                     r.count("coord_op[complete_abort]", 1);
                     if res.is_ok() {
-                        txs.remove(idx);
+                        let gone_tx = txs.remove(idx);
                         held.retain(|_, t| *t != id);
                         completions += 1;
                         for p in &parts {
                             let _ = p.abort(id);
                         }
-                        completed(id, "abort", &all_ids, &trace, &mut soft, r)?;
+                        completed(id, "abort", &gone_tx.unrecorded, &all_ids, &trace, &mut soft, r)?;
                     }
                 }
                 _ => {
@@ -1555,13 +1674,14 @@ fn coord_inner(case_seed: u64, r: &mut Report) -> Result<(u64, bool), Fail> {
                     trace.push(format!("cleanup_timeouts -> {:?}", gone));
                     r.count("coord_op[cleanup_timeouts]", 1);
                     for &t in &gone {
+                        let unrec: BTreeSet<u64> = txs.iter().find(|x| x.id == t).map(|x| x.unrecorded.clone()).unwrap_or_default();
                         txs.retain(|x| x.id != t);
                         held.retain(|_, o| *o != t);
                         completions += 1;
                         for p in &parts {
                             let _ = p.abort(t);
                         }
-                        completed(t, "timeout", &all_ids, &trace, &mut soft, r)?;
+                        completed(t, "timeout", &unrec, &all_ids, &trace, &mut soft, r)?;
                     }
                     // a transaction has timed out when its deadline has passed and the sweep has
                     // run, whether or not the sweep announces it: none of its locks may remain and
@@ -1573,7 +1693,8 @@ fn coord_inner(case_seed: u64, r: &mut Report) -> Result<(u64, bool), Fail> {
                         }
                         r.count("coord_overdue_not_announced", 1);
                         trace.push(format!("(tx{} was {:?} and past its {} ms deadline, not listed by the sweep)", t, ph, prepare_timeout_ms));
-                        completed(t, "timeout", &all_ids, &trace, &mut soft, r)?;
+                        let unrec: BTreeSet<u64> = txs.iter().find(|x| x.id == t).map(|x| x.unrecorded.clone()).unwrap_or_default();
+                        completed(t, "timeout", &unrec, &all_ids, &trace, &mut soft, r)?;
                     }
                 }
             }
@@ -1598,7 +1719,7 @@ fn coord_inner(case_seed: u64, r: &mut Report) -> Result<(u64, bool), Fail> {
         if coord.abort(t.id, "end").is_ok() {
             trace.push(format!("abort(tx{}) -> Ok", t.id));
             completions += 1;
-            completed(t.id, "abort", &all_ids, &trace, &mut soft, r)?;
+            completed(t.id, "abort", &t.unrecorded, &all_ids, &trace, &mut soft, r)?;
         }
     }
     if !coord.lock_manager().to_serializable().locks().is_empty() {
@@ -1984,6 +2105,689 @@ fn threads_case(case_seed: u64, r: &mut Report) -> bool {
 }
 
 // ------------------------------------------------------------------------------------------------
+// participant: sequential programs at one real TxParticipant with retransmitted / late messages
+// ------------------------------------------------------------------------------------------------
+
+struct PTx {
+    id: u64,
+    req: PrepareRequest,
+    /// the keys its operations write in the store = the key set its PREPARE asks for
+    lock_keys: Vec<String>,
+    prepared: bool,
+    /// PREPAREs answered YES since it was last finished
+    yes_votes: u32,
+    /// harness clock before the first / after the latest PREPARE answered YES since it was last
+    /// finished (the participant's own stamp of the prepared entry lies in between)
+    first_call: u64,
+    last_ret: u64,
+}
+
+fn participant_op(rng: &mut Rng, nk: usize) -> Transaction {
+    let k = kname(rng.below(nk));
+    match rng.below(7) {
+        0 | 1 => Transaction::Put { key: k, data: vec![rng.below(200) as u8] },
+        2 => Transaction::Delete { key: k },
+        3 => Transaction::TableInsert { table: k, values: vec![1, 2] },
+        // the same stored entry as TableInsert{table: k}
+        4 => Transaction::Put { key: format!("table:{}", k), data: vec![3] },
+        5 => Transaction::NodeCreate { key: k, label: "l".into() },
+        _ => Transaction::CompareAndSwap { key: k, expected_data: vec![], new_data: vec![9] },
+    }
+}
+
+fn participant_inner(case_seed: u64, r: &mut Report) -> Result<(u64, bool), Fail> {
+    let mut rng = Rng::new(case_seed);
+    let mut p = TxParticipant::new_in_memory();
+    let nk = 2 + rng.below(3);
+    let universe: Vec<String> = (0..nk).flat_map(|i| [kname(i), format!("table:{}", kname(i)), format!("node:{}", kname(i))]).collect();
+    // one case in eight lets prepared transactions really age past a 25 ms participant timeout
+    let timed = rng.chance(1, 8);
+    let mut txs: Vec<PTx> = Vec::new();
+    let mut held: BTreeMap<String, u64> = BTreeMap::new();
+    let mut trace: Vec<String> = Vec::new();
+    let mut next_id = *rng.pick(&[1u64, 500, 1 << 41]);
+    let (mut conflicts, mut completions, mut naps) = (0u64, 0u64, 0);
+    let case_started = Instant::now();
+
+    // the transaction is gone at this participant (commit / abort / timeout): none of its locks remain
+    fn nothing_left(p: &TxParticipant, t: &PTx, how: &str, trace: &[String], r: &mut Report) -> Ck {
+        r.count(&format!("participant_completions[{}]", how), 1);
+        if t.yes_votes >= 2 {
+            r.count("participant_completions_after_retransmitted_prepare", 1);
+        }
+        let raw = p.locks.to_serializable();
+        if let Some((k, l)) = raw.locks().iter().find(|(_, l)| l.tx_id == t.id) {
+            return fail(
+                format!("participant:lock-remains-after-{}", how),
+                format!("tx {} is finished at the participant ({}; its PREPARE was answered YES {} time(s)) but the lock table still holds {} (handle {}) for it; program {:?}", t.id, how, t.yes_votes, k, l.lock_handle, trace),
+            );
+        }
+        let kft = p.locks.keys_for_transaction(t.id);
+        if !kft.is_empty() {
+            return fail(format!("participant:keys_for_transaction-nonempty-after-{}", how), format!("tx {} is finished at the participant ({}) but keys_for_transaction = {:?}; program {:?}", t.id, how, kft, trace));
+        }
+        Ok(())
+    }
+
+    let steps = 6 + rng.below(40);
+    for _ in 0..steps {
+        if case_started.elapsed() > Duration::from_secs(3) {
+            r.inconclusive("participant case ran longer than 3 s (lock timeout is 30 s): machine stalled");
+            return Ok((0, false));
+        }
+        if txs.is_empty() || (txs.len() < 6 && rng.chance(1, 4)) {
+            let id = next_id;
+            next_id += 1;
+            let ops: Vec<Transaction> = (0..1 + rng.below(3)).map(|_| participant_op(&mut rng, nk)).collect();
+            let lock_keys: Vec<String> = ops.iter().map(Transaction::storage_key).collect();
+            let req = PrepareRequest { tx_id: id, coordinator: "c".into(), operations: ops, delta_embedding: SparseVector::new(4), timeout_ms: 5000 };
+            txs.push(PTx { id, req, lock_keys, prepared: false, yes_votes: 0, first_call: 0, last_ret: 0 });
+        }
+        let idx = rng.below(txs.len());
+        let id = txs[idx].id;
+        let mut after = "";
+        match rng.weighted(&[44, 12, 12, 9, 5, 6, if timed { 8 } else { 0 }]) {
+            0 => {
+                // PREPARE: the first one, a retransmission while prepared, or a late duplicate after
+                // the transaction was finished here (the participant then prepares it afresh)
+                let keys = txs[idx].lock_keys.clone();
+                let blockers: BTreeSet<u64> = keys.iter().filter_map(|k| held.get(k).copied()).filter(|&t| t != id).collect();
+                let mine_before: BTreeSet<String> = held.iter().filter(|(_, t)| **t == id).map(|(k, _)| k.clone()).collect();
+                let again = txs[idx].prepared;
+                let t0 = now_ms();
+                let vote = p.prepare(txs[idx].req.clone());
+                let t1 = now_ms();
+                r.count(if again { "participant_op[prepare_retransmitted]" } else { "participant_op[prepare]" }, 1);
+                match &vote {
+                    PrepareVote::Yes { lock_handle, .. } => {
+                        trace.push(format!("PREPARE{}(tx{}, {:?}) -> Yes(h{})", if again { " again" } else { "" }, id, keys, lock_handle));
+                        if !blockers.is_empty() {
+                            return fail(
+                                "participant:prepare-granted-over-held-key",
+                                format!("PREPARE of tx {} on {:?} was answered YES although {:?} hold(s) a requested key; program {:?}", id, keys, blockers, trace),
+                            );
+                        }
+                        for k in &keys {
+                            held.insert(k.clone(), id);
+                            if p.locks.lock_holder(k) != Some(id) {
+                                return fail(
+                                    "participant:requested-key-not-held-after-yes",
+                                    format!("PREPARE of tx {} on {:?} was answered YES but lock_holder({}) = {:?}; program {:?}", id, keys, k, p.locks.lock_holder(k), trace),
+                                );
+                            }
+                        }
+                        let t = &mut txs[idx];
+                        if !t.prepared {
+                            t.first_call = t0;
+                            t.yes_votes = 0;
+                        }
+                        t.prepared = true;
+                        t.yes_votes += 1;
+                        t.last_ret = t1;
+                        if again {
+                            r.count("participant_retransmitted_prepares_answered_yes", 1);
+                        }
+                    }
+                    PrepareVote::Conflict { conflicting_tx, .. } => {
+                        conflicts += 1;
+                        trace.push(format!("PREPARE{}(tx{}, {:?}) -> Conflict(tx{})", if again { " again" } else { "" }, id, keys, conflicting_tx));
+                        if blockers.is_empty() {
+                            return fail(
+                                "participant:conflict-vote-although-no-requested-key-is-held",
+                                format!("PREPARE of tx {} on {:?} was refused naming tx {} although no other transaction holds a requested key; program {:?}", id, keys, conflicting_tx, trace),
+                            );
+                        }
+                        if !blockers.contains(conflicting_tx) {
+                            return fail("participant:conflict-vote-names-non-holder", format!("PREPARE of tx {} on {:?} names tx {}, holders are {:?}; program {:?}", id, keys, conflicting_tx, blockers, trace));
+                        }
+                        for k in &keys {
+                            if !mine_before.contains(k) && p.locks.lock_holder(k) == Some(id) {
+                                return fail(
+                                    "participant:refused-prepare-still-holds-requested-key",
+                                    format!("PREPARE of tx {} on {:?} was refused but lock_holder({}) = tx {}; program {:?}", id, keys, k, id, trace),
+                                );
+                            }
+                        }
+                    }
+                    _ => {
+                        trace.push(format!("PREPARE(tx{}, {:?}) -> No", id, keys));
+                        r.count("participant_no_votes_not_judged", 1);
+                    }
+                }
+            }
+            1 | 2 => {
+                // COMMIT / ABORT: of a prepared transaction, or a duplicate / stray one
+                let commit = rng.weighted(&[1, 1]) == 0;
+                let target = if rng.chance(1, 12) { next_id + 1000 } else { id };
+                let resp = if commit { p.commit(target) } else { p.abort(target) };
+                trace.push(format!("{}(tx{}) -> {}", if commit { "COMMIT" } else { "ABORT" }, target, resp.success));
+                r.count(if commit { "participant_op[commit]" } else { "participant_op[abort]" }, 1);
+                if target == id && txs[idx].prepared {
+                    txs[idx].prepared = false;
+                    held.retain(|_, t| *t != id);
+                    completions += 1;
+                    nothing_left(&p, &txs[idx], if commit { "commit" } else { "abort" }, &trace, r)?;
+                    txs[idx].yes_votes = 0;
+                } else {
+                    r.count("participant_stray_decisions", 1);
+                }
+            }
+            3 | 4 => {
+                // the participant's own timeout: cleanup_stale / recover. Which prepared transactions
+                // a sweep times out is the participant's call; judged are (a) every transaction it
+                // does time out and (b) every one whose latest PREPARE was answered more than the
+                // timeout ago for certain when the sweep began, listed or not.
+                let stale_sweep = rng.weighted(&[9, 5]) == 0;
+                let timeout_ms: u64 = if timed { 25 } else { *rng.pick(&[0u64, 0, 3_600_000]) };
+                if timeout_ms == 0 {
+                    std::thread::sleep(Duration::from_millis(2));
+                }
+                let before: Vec<u64> = txs.iter().filter(|t| t.prepared).map(|t| t.id).collect();
+                let t0 = now_ms();
+                let timed_out: Vec<u64> = if stale_sweep {
+                    p.cleanup_stale(Duration::from_millis(timeout_ms))
+                } else {
+                    let awaiting = p.recover(Duration::from_millis(timeout_ms));
+                    before.iter().copied().filter(|t| !awaiting.contains(t)).collect()
+                };
+                trace.push(format!("{}({} ms) timed out {:?}", if stale_sweep { "cleanup_stale" } else { "recover" }, timeout_ms, timed_out));
+                r.count(if stale_sweep { "participant_op[cleanup_stale]" } else { "participant_op[recover]" }, 1);
+                for t in txs.iter_mut().filter(|t| t.prepared) {
+                    let listed = timed_out.contains(&t.id);
+                    let overdue = t0.saturating_sub(t.last_ret) > timeout_ms;
+                    if listed || overdue {
+                        if !listed {
+                            r.count("participant_overdue_not_announced", 1);
+                            trace.push(format!("(tx{} was prepared {} ms ago for certain, past the {} ms timeout, not listed by the sweep)", t.id, t0.saturating_sub(t.last_ret), timeout_ms));
+                        }
+                        t.prepared = false;
+                        let tid = t.id;
+                        held.retain(|_, o| *o != tid);
+                        completions += 1;
+                        r.count("participant_timeouts", 1);
+                        nothing_left(&p, t, "timeout", &trace, r)?;
+                        t.yes_votes = 0;
+                    }
+                }
+            }
+            5 => {
+                // persisted and loaded again (a restart of the participant)
+                let store = p.store().clone();
+                match p.save_to_store("n", 0, &store) {
+                    Ok(()) => {
+                        p = TxParticipant::load_from_store("n", 0, &store);
+                        trace.push("save_to_store / load_from_store".into());
+                        r.count("participant_op[save_load]", 1);
+                        after = "@after-save-load";
+                    }
+                    Err(e) => r.inconclusive(&format!("participant save_to_store failed: {}", first_line(&e.to_string()))),
+                }
+            }
+            _ => {
+                if naps < 4 {
+                    naps += 1;
+                    std::thread::sleep(Duration::from_millis(40));
+                    trace.push("nap 40 ms".into());
+                }
+            }
+        }
+        // one holder per key: the transaction whose PREPARE was granted it and that is still prepared
+        for k in &universe {
+            let h = p.locks.lock_holder(k);
+            r.count("participant_holder_reads_checked", 1);
+            if h != held.get(k).copied() {
+                let sig = match (h, held.get(k)) {
+                    (None, Some(_)) => "participant:lock-of-prepared-transaction-vanished",
+                    (Some(_), None) => "participant:key-held-although-no-prepared-transaction-was-granted-it",
+                    _ => "participant:holder-differs-from-grantee",
+                };
+                return fail(format!("{}{}", sig, after), format!("{}: lock_holder = {:?}, granted to {:?}; program {:?}", k, h, held.get(k), trace));
+            }
+        }
+    }
+    // wind down: every transaction still prepared is aborted; nothing at all may remain
+    for t in txs.iter_mut().filter(|t| t.prepared) {
+        let _ = p.abort(t.id);
+        trace.push(format!("ABORT(tx{})", t.id));
+        t.prepared = false;
+        completions += 1;
+        nothing_left(&p, t, "abort", &trace, r)?;
+    }
+    if p.locks.active_lock_count() != 0 || !p.locks.to_serializable().locks().is_empty() {
+        return fail(
+            "participant:locks-remain-after-every-transaction-finished",
+            format!("lock table {:?}; program {:?}", p.locks.to_serializable().locks().iter().map(|(k, l)| format!("{}:tx{}", k, l.tx_id)).collect::<Vec<_>>(), trace),
+        );
+    }
+    r.count("participant_conflict_votes", conflicts);
+    if r.want_sample() && conflicts > 0 && completions >= 3 && trace.iter().any(|s| s.starts_with("PREPARE again")) {
+        r.sample(json!({"part": "participant", "program": trace.iter().take(14).collect::<Vec<_>>()}));
+    }
+    // lock handles come from a process-wide counter: leave them out of the program's hash
+    let shape: Vec<String> = trace.iter().map(|s| s.split("(h").next().unwrap_or("").to_string()).collect();
+    Ok((hash_str(&shape.join(";")), conflicts > 0 && completions > 0))
+}
+
+fn participant_case(case_seed: u64, r: &mut Report) -> bool {
+    match participant_inner(case_seed, r) {
+        Ok((h, nt)) => {
+            if h != 0 {
+                r.eval(h, nt);
+                r.count("participant_programs", 1);
+            }
+            true
+        }
+        Err(f) => {
+            r.violation(f.sig, f.detail, json!({"part": "participant", "case_seed": case_seed}));
+            false
+        }
+    }
+}
+
+// ------------------------------------------------------------------------------------------------
+// coord-threads: concurrent transaction life cycles through one real coordinator while the orphan
+// sweep runs
+// ------------------------------------------------------------------------------------------------
+
+struct CShared {
+    coord: DistributedTxCoordinator,
+    /// shadow owner per pool key: (tx, when its grant returned). Written after a YES vote, cleared
+    /// before the completion call.
+    shadow: Vec<Mutex<Option<(u64, Instant)>>>,
+    /// keeps the orphan sweep and the completion calls apart (see the header comment)
+    gate: parking_lot::RwLock<()>,
+    sweeps: AtomicU64,
+    tick: AtomicU64,
+    stop: AtomicBool,
+    stalled: AtomicBool,
+    fails: Mutex<Vec<Fail>>,
+}
+impl CShared {
+    fn bad(&self, sig: &str, detail: String) {
+        self.stop.store(true, Ordering::SeqCst);
+        self.fails.lock().push(Fail { sig: sig.to_string(), detail });
+    }
+}
+
+/// the coordinator's LockManager uses a 30 s lease: nothing older than this is judged
+const CT_FRESH: Duration = Duration::from_secs(8);
+
+fn cworker(sh: &CShared, th: usize, seed: u64, rounds: usize, nkeys: usize, bulk: usize, log: &mut ThreadLog) {
+    let mut rng = Rng::new(seed);
+    let lm = sh.coord.lock_manager();
+    for round in 0..rounds {
+        if sh.stop.load(Ordering::Relaxed) || sh.stalled.load(Ordering::Relaxed) {
+            return;
+        }
+        let sweeps_at_begin = sh.sweeps.load(Ordering::SeqCst);
+        let shards: Vec<usize> = if rng.bool() { vec![0] } else { vec![0, 1] };
+        let tx = match sh.coord.begin(&"c".to_string(), &shards) {
+            Ok(t) => t.tx_id,
+            Err(_) => {
+                log.c("cthread_begin_refused");
+                continue;
+            }
+        };
+        // what this pending transaction was granted: pool keys (index) and private keys, with the
+        // time the grant returned
+        let mut mine: BTreeMap<usize, Instant> = BTreeMap::new();
+        let mut mine_private: Vec<(String, Instant)> = Vec::new();
+        for &shard in &shards {
+            let mut keys: Vec<usize> = (0..1 + rng.below(3)).map(|_| rng.below(nkeys)).collect();
+            keys.sort();
+            keys.dedup();
+            if rng.bool() {
+                keys.reverse();
+            }
+            let private: Vec<String> = (0..bulk).map(|j| format!("p{}:{}:{}:{}", th, round, shard, j)).collect();
+            let mut ops: Vec<Transaction> = keys.iter().map(|&k| Transaction::Put { key: kname(k), data: vec![1] }).collect();
+            ops.extend(private.iter().map(|k| Transaction::Put { key: k.clone(), data: vec![1] }));
+            // zero delta: the semantic stage behind the lock stage never refuses (a refusal there
+            // drops every lock of the transaction, which the statement does not speak about)
+            let req = PrepareRequest { tx_id: tx, coordinator: "c".into(), operations: ops, delta_embedding: SparseVector::new(4), timeout_ms: 5000 };
+            let vote = sh.coord.handle_prepare(&req);
+            let granted_at = Instant::now();
+            let tick = sh.tick.fetch_add(1, Ordering::SeqCst);
+            log.events.push((tick, th as u8, 1, matches!(vote, PrepareVote::Yes { .. }) as u8));
+            match &vote {
+                PrepareVote::Yes { lock_handle, .. } => {
+                    log.c("cthread_grants");
+                    for &k in &keys {
+                        let mut s = sh.shadow[k].lock();
+                        if let Some((other, since)) = *s {
+                            if other != tx {
+                                // `other` set its mark after its YES vote and has not begun to complete
+                                if since.elapsed() < CT_FRESH {
+                                    sh.bad(
+                                        "coord-threads:prepare-granted-while-pending-transaction-holds-the-key",
+                                        format!(
+                                            "prepare of tx {} on {} was voted YES (handle {}) while pending tx {} holds the key (its YES vote returned {} ms earlier; lease 30 s; {} orphan sweeps so far)",
+                                            tx,
+                                            kname(k),
+                                            lock_handle,
+                                            other,
+                                            since.elapsed().as_millis(),
+                                            sh.sweeps.load(Ordering::SeqCst)
+                                        ),
+                                    );
+                                } else {
+                                    sh.stalled.store(true, Ordering::SeqCst);
+                                }
+                            }
+                        }
+                        *s = Some((tx, granted_at));
+                        drop(s);
+                        mine.entry(k).or_insert(granted_at);
+                    }
+                    mine_private.extend(private.iter().map(|k| (k.clone(), granted_at)));
+                }
+                PrepareVote::Conflict { conflicting_tx, .. } => {
+                    log.c("cthread_refusals");
+                    if *conflicting_tx == tx {
+                        sh.bad("coord-threads:conflict-vote-names-the-requester", format!("prepare of tx {} on {:?} was refused naming itself", tx, keys));
+                    }
+                    for &k in &keys {
+                        if !mine.contains_key(&k) && lm.lock_holder(&kname(k)) == Some(tx) {
+                            sh.bad("coord-threads:refused-prepare-still-holds-requested-key", format!("prepare of tx {} on {:?} was refused but lock_holder({}) names it", tx, keys, kname(k)));
+                        }
+                    }
+                    if let Some(k) = private.first() {
+                        if lm.lock_holder(k) == Some(tx) {
+                            sh.bad("coord-threads:refused-prepare-still-holds-requested-key", format!("prepare of tx {} was refused but lock_holder({}) names it", tx, k));
+                        }
+                    }
+                }
+                _ => log.c("cthread_no_votes"),
+            }
+            if sh.coord.record_vote(tx, shard, vote).is_err() {
+                log.c("cthread_record_vote_errors");
+            }
+            pause(&mut rng);
+        }
+        // ---- the transaction is pending and only this thread can complete it: whatever it was
+        // granted is still its own
+        pause(&mut rng);
+        let private_probe: Vec<&(String, Instant)> = if mine_private.len() <= 6 { mine_private.iter().collect() } else { (0..6).map(|_| &mine_private[rng.below(mine_private.len())]).collect() };
+        for (name, since) in mine.iter().map(|(k, s)| (kname(*k), *s)).chain(private_probe.into_iter().map(|(k, s)| (k.clone(), *s))) {
+            let h = lm.lock_holder(&name);
+            log.c("cthread_pending_lock_checks");
+            if h != Some(tx) {
+                if since.elapsed() < CT_FRESH {
+                    sh.bad(
+                        "coord-threads:lock-of-pending-transaction-vanished",
+                        format!(
+                            "tx {} is pending (begun, prepared with a YES vote {} ms ago, not completed) but lock_holder({}) = {:?}; keys_for_transaction = {} key(s); {} orphan sweeps so far",
+                            tx,
+                            since.elapsed().as_millis(),
+                            name,
+                            h,
+                            lm.keys_for_transaction(tx).len(),
+                            sh.sweeps.load(Ordering::SeqCst)
+                        ),
+                    );
+                } else {
+                    sh.stalled.store(true, Ordering::SeqCst);
+                }
+                break;
+            }
+        }
+        if sh.sweeps.load(Ordering::SeqCst) != sweeps_at_begin && (!mine.is_empty() || !mine_private.is_empty()) {
+            log.c("cthread_prepared_transactions_spanning_a_sweep");
+        }
+        if sh.stop.load(Ordering::Relaxed) {
+            return;
+        }
+        // ---- completion (shadow marks cleared first)
+        for &k in mine.keys() {
+            let mut s = sh.shadow[k].lock();
+            if matches!(*s, Some((p, _)) if p == tx) {
+                *s = None;
+            }
+        }
+        let how;
+        {
+            let _g = sh.gate.read();
+            let phase = sh.coord.get(tx).map(|t| t.phase);
+            let mut done = false;
+            let mut h = "abort";
+            if phase == Some(TxPhase::Prepared) && rng.chance(2, 3) {
+                done = sh.coord.commit(tx).is_ok();
+                h = "commit";
+            } else if phase == Some(TxPhase::Aborting) && rng.bool() {
+                done = sh.coord.complete_abort(tx).is_ok();
+            }
+            if !done {
+                h = "abort";
+                done = sh.coord.abort(tx, "client").is_ok();
+            }
+            if rng.chance(1, 10) {
+                // nothing is overdue (timeout 1 h, lease 30 s)
+                let gone = sh.coord.cleanup_timeouts();
+                log.c("cthread_cleanup_timeouts");
+                if !gone.is_empty() && !sh.stalled.load(Ordering::Relaxed) {
+                    log.c("cthread_unexpected_timeouts_not_judged");
+                }
+            }
+            if !done {
+                // the statement says nothing about a completion being accepted
+                log.c("cthread_completion_refused_not_judged");
+                continue;
+            }
+            how = h;
+        }
+        let tick = sh.tick.fetch_add(1, Ordering::SeqCst);
+        log.events.push((tick, th as u8, if how == "commit" { 2 } else { 3 }, 1));
+        log.c(if how == "commit" { "cthread_completions[commit]" } else { "cthread_completions[abort]" });
+        // ---- none left behind (this transaction id is never used again)
+        for name in mine.keys().map(|k| kname(*k)).chain(mine_private.iter().map(|(k, _)| k.clone())) {
+            if lm.lock_holder(&name) == Some(tx) {
+                sh.bad(&format!("coord-threads:lock-held-after-{}", how), format!("tx {} completed ({}) but lock_holder({}) still names it", tx, how, name));
+                break;
+            }
+        }
+        let kft = lm.keys_for_transaction(tx);
+        if !kft.is_empty() {
+            sh.bad(&format!("coord-threads:keys_for_transaction-nonempty-after-{}", how), format!("tx {} completed ({}) but keys_for_transaction = {:?}", tx, how, kft.iter().take(6).collect::<Vec<_>>()));
+        }
+        let g = sh.coord.wait_graph();
+        let (wf, wo) = (g.waiting_for(tx), g.waiting_on(tx));
+        log.c("cthread_graph_absence_checked");
+        if !wf.is_empty() || !wo.is_empty() {
+            sh.bad(
+                &format!("coord-threads:still-in-wait-graph-after-{}", how),
+                format!("tx {} completed ({}) but waiting_for = {:?}, waiting_on = {:?}", tx, how, wf, wo),
+            );
+        }
+        pause(&mut rng);
+    }
+}
+
+fn csweeper(sh: &CShared, seed: u64, done: &AtomicBool, log: &mut ThreadLog) {
+    let mut rng = Rng::new(seed);
+    let lm = sh.coord.lock_manager();
+    let mut next_orphan = 7u64;
+    let mut planted: Vec<(u64, String)> = Vec::new();
+    let style = rng.below(3); // 0 spinning, 1 short pauses, 2 mixed
+    while !done.load(Ordering::Relaxed) && !sh.stop.load(Ordering::Relaxed) && !sh.stalled.load(Ordering::Relaxed) {
+        // an orphan: a lock whose owner is not a pending transaction (keys o*, never used by workers)
+        if rng.chance(1, 4) {
+            let key = format!("o{}", rng.below(3));
+            let id = next_orphan;
+            next_orphan += 1;
+            if lm.try_lock(id, &[key.clone()]).is_ok() {
+                planted.push((id, key));
+            }
+        }
+        let mode = rng.weighted(&[1, 3, 3]);
+        let partition_start = match mode {
+            0 => 0, // a partition that began before anything was locked: releases nothing
+            1 => now_ms() + 60_000,
+            _ => u64::MAX,
+        };
+        let n = {
+            // never queue for the gate (a queued writer would hold back the completions)
+            let Some(_g) = sh.gate.try_write() else {
+                std::thread::yield_now();
+                continue;
+            };
+            sh.coord.release_orphaned_locks(partition_start)
+        };
+        sh.sweeps.fetch_add(1, Ordering::SeqCst);
+        log.c("cthread_sweeps");
+        if n > 0 {
+            log.c("cthread_sweeps_that_released_locks");
+        }
+        if mode == 0 {
+            if n > 0 {
+                sh.bad("orphan-sweep:released-lock-acquired-after-partition-start", format!("release_orphaned_locks(0) released {} lock(s)", n));
+            }
+            for (id, key) in &planted {
+                if lm.lock_holder(key) != Some(*id) {
+                    sh.bad("orphan-sweep:released-lock-acquired-after-partition-start", format!("{} of tx {} released by release_orphaned_locks(0)", key, id));
+                }
+            }
+        } else {
+            for (id, key) in planted.drain(..) {
+                log.c("cthread_orphans_swept_checked");
+                if lm.lock_holder(&key).is_some() || !lm.keys_for_transaction(id).is_empty() {
+                    sh.bad("orphan-sweep:orphaned-lock-remains", format!("{} of tx {} (not a pending transaction) still held after release_orphaned_locks", key, id));
+                }
+            }
+        }
+        if rng.chance(1, 8) {
+            let _ = lm.to_serializable();
+            let _ = sh.coord.wait_graph().detect_cycles();
+        }
+        match style {
+            0 => {}
+            1 => std::thread::sleep(Duration::from_micros(20 + rng.below(200) as u64)),
+            _ => pause(&mut rng),
+        }
+    }
+}
+
+fn coord_threads_inner(case_seed: u64, r: &mut Report) -> Result<(u64, bool), Fail> {
+    let mut rng = Rng::new(case_seed);
+    let nworkers = 2 + rng.below(4); // + the sweeper: 3-6 threads
+    let nkeys = 4 + rng.below(9);
+    let bulk = *rng.pick(&[0usize, 0, 4, 12, 32]);
+    let rounds = 20 + rng.below(40);
+    let cfg = DistributedTxConfig { prepare_timeout_ms: 3_600_000, commit_timeout_ms: 3_600_000, max_concurrent: 1_000_000, optimistic_locking: rng.bool(), ..DistributedTxConfig::default() };
+    let sh = CShared {
+        coord: DistributedTxCoordinator::new(ConsensusManager::default_config(), cfg),
+        shadow: (0..nkeys).map(|_| Mutex::new(None)).collect(),
+        gate: parking_lot::RwLock::new(()),
+        sweeps: AtomicU64::new(0),
+        tick: AtomicU64::new(0),
+        stop: AtomicBool::new(false),
+        stalled: AtomicBool::new(false),
+        fails: Mutex::new(Vec::new()),
+    };
+    let barrier = Barrier::new(nworkers + 1);
+    let done = AtomicBool::new(false);
+    let seeds: Vec<u64> = (0..=nworkers).map(|_| rng.next_u64()).collect();
+    let mut logs: Vec<ThreadLog> = Vec::new();
+    std::thread::scope(|s| {
+        let mut hs = Vec::new();
+        for th in 0..nworkers {
+            let (sh, barrier, seed) = (&sh, &barrier, seeds[th]);
+            hs.push(s.spawn(move || {
+                let mut log = ThreadLog::default();
+                barrier.wait();
+                cworker(sh, th, seed, rounds, nkeys, bulk, &mut log);
+                log
+            }));
+        }
+        let (shr, barrier_r, done_r, seed) = (&sh, &barrier, &done, seeds[nworkers]);
+        let sw = s.spawn(move || {
+            let mut log = ThreadLog::default();
+            barrier_r.wait();
+            csweeper(shr, seed, done_r, &mut log);
+            log
+        });
+        for h in hs {
+            match h.join() {
+                Ok(l) => logs.push(l),
+                Err(e) => sh.bad("panic:coord-worker-thread", panic_msg(&e)),
+            }
+        }
+        done.store(true, Ordering::SeqCst);
+        match sw.join() {
+            Ok(l) => logs.push(l),
+            Err(e) => sh.bad("panic:coord-sweeper-thread", panic_msg(&e)),
+        }
+    });
+    let cfgs = format!("[workers {}, pool keys {}, private keys per prepare {}, rounds {}]", nworkers, nkeys, bulk, rounds);
+    let mut fails = std::mem::take(&mut *sh.fails.lock());
+    if !fails.is_empty() {
+        let f = fails.remove(0);
+        return fail(f.sig, format!("{} {}", f.detail, cfgs));
+    }
+    if sh.stalled.load(Ordering::SeqCst) {
+        r.inconclusive("coord-threads case held a lock longer than 8 s (lease is 30 s): machine stalled");
+        return Ok((0, false));
+    }
+    // quiescence: every transaction completed; what is left are orphans, and one more sweep takes them
+    let lm = sh.coord.lock_manager();
+    let _ = sh.coord.release_orphaned_locks(u64::MAX);
+    let raw = lm.to_serializable();
+    let all_completed = logs.iter().all(|l| !l.counters.contains_key("cthread_completion_refused_not_judged"));
+    if !all_completed {
+        r.count("cthread_cases_with_refused_completion_not_judged_at_quiescence", 1);
+    } else if let Some((k, l)) = raw.locks().iter().next() {
+        return fail(
+            "coord-threads:lock-in-table-at-quiescence",
+            format!("every transaction completed and the orphan sweep ran, but {} is still locked by tx {} ({} lock(s) in the table) {}", k, l.tx_id, raw.locks().len(), cfgs),
+        );
+    }
+    if all_completed && sh.coord.wait_graph().edge_count() > 0 {
+        return fail("coord-threads:wait-edges-at-quiescence", format!("every transaction completed, yet {} wait edge(s) remain {}", sh.coord.wait_graph().edge_count(), cfgs));
+    }
+    let mut events: Vec<(u64, u8, u8, u8)> = Vec::new();
+    let (mut refusals, mut sweeps) = (0, 0);
+    for l in logs {
+        for (k, v) in l.counters {
+            r.count(k, v);
+            if k == "cthread_refusals" {
+                refusals += v;
+            }
+            if k == "cthread_sweeps" {
+                sweeps += v;
+            }
+        }
+        events.extend(l.events);
+    }
+    events.sort();
+    let mut h = 13u64;
+    for (_, th, op, ok) in &events {
+        h = hash_combine(h, (*th as u64) << 16 | (*op as u64) << 8 | *ok as u64);
+    }
+    r.count("cthread_events", events.len() as u64);
+    r.count_max("max:cthread_threads", nworkers as u64 + 1);
+    if r.want_sample() && refusals > 3 {
+        r.sample(json!({"part": "coord-threads", "workers": nworkers, "pool_keys": nkeys, "private_keys_per_prepare": bulk, "orphan_sweeps": sweeps,
+            "first_events(thread,op 1=prepare 2=commit 3=abort,granted)": events.iter().take(24).map(|e| format!("t{}:{}:{}", e.1, e.2, e.3)).collect::<Vec<_>>()}));
+    }
+    Ok((h, refusals > 0 && sweeps > 0))
+}
+
+fn coord_threads_case(case_seed: u64, r: &mut Report) -> bool {
+    match coord_threads_inner(case_seed, r) {
+        Ok((h, nt)) => {
+            if h != 0 {
+                r.eval(h, nt);
+                r.count("cthread_cases", 1);
+            }
+            true
+        }
+        Err(f) => {
+            r.violation(f.sig, f.detail, json!({"part": "coord-threads", "case_seed": case_seed}));
+            false
+        }
+    }
+}
+
+// ------------------------------------------------------------------------------------------------
 // witness: the two minimal programs behind the findings of this check (`--part witness`, not part
 // of a normal run; prints what the real code answers)
 // ------------------------------------------------------------------------------------------------
@@ -2029,7 +2833,8 @@ fn witnesses(r: &mut Report) {
         wo
     );
     r.sample(json!({"witness": "aborted-tx-still-waiter", "waiting_for(B)": wf.iter().collect::<Vec<_>>()}));
-    // (3) PROBE: a PREPARE delivered twice to the coordinator's own handle_prepare
+    // (3) a PREPARE delivered twice to the coordinator: the second grant re-stamps the keys with a
+    // handle the coordinator never records, so the completion releases nothing
     let coord = DistributedTxCoordinator::new(ConsensusManager::default_config(), DistributedTxConfig::default());
     let a = coord.begin(&"c".to_string(), &[0]).map(|t| t.tx_id).unwrap_or(0);
     let v1 = coord.handle_prepare(&req(a));
@@ -2037,17 +2842,23 @@ fn witnesses(r: &mut Report) {
     let v2 = coord.handle_prepare(&req(a));
     let r2 = coord.record_vote(a, 0, v2.clone());
     let c = coord.commit(a);
+    let hs = |v: &PrepareVote| match v {
+        PrepareVote::Yes { lock_handle, .. } => format!("Yes(h{})", lock_handle),
+        _ => "refused".to_string(),
+    };
+    let holder = coord.lock_manager().lock_holder("k");
     eprintln!(
-        "witness 3: prepare -> {:?} / {:?}; prepare again -> {:?} / {:?}; commit = {:?}; lock_holder(k) = {:?}; keys_for_transaction = {:?}",
-        v1, r1, v2, r2, c.is_ok(), coord.lock_manager().lock_holder("k"), coord.lock_manager().keys_for_transaction(a)
+        "witness 3: A={} prepare -> {} / {:?}; the same prepare again -> {} / {:?}; commit(A) = {:?}; lock_holder(k) = {:?}; keys_for_transaction(A) = {:?}",
+        a,
+        hs(&v1),
+        r1,
+        hs(&v2),
+        r2,
+        c.is_ok(),
+        holder,
+        coord.lock_manager().keys_for_transaction(a)
     );
-    // (4) PROBE: participant, second PREPARE of the same transaction with another key set
-    let p = TxParticipant::new_in_memory();
-    let rq = |id: u64, ks: &[&str]| PrepareRequest { tx_id: id, coordinator: "c".into(), operations: ks.iter().map(|k| Transaction::Put { key: k.to_string(), data: vec![1] }).collect(), delta_embedding: SparseVector::new(4), timeout_ms: 5000 };
-    let w1 = p.prepare(rq(1, &["a", "b"]));
-    let w2 = p.prepare(rq(1, &["b", "c"]));
-    let cm = p.commit(1);
-    eprintln!("witness 4: {:?} {:?} commit {:?}: holders a={:?} b={:?} c={:?}", matches!(w1, PrepareVote::Yes { .. }), matches!(w2, PrepareVote::Yes { .. }), cm.success, p.locks.lock_holder("a"), p.locks.lock_holder("b"), p.locks.lock_holder("c"));
+    r.sample(json!({"witness": "retransmitted-prepare-at-coordinator-leaves-locks-after-commit", "lock_holder(k) after commit": holder}));
 }
 
 // ------------------------------------------------------------------------------------------------
@@ -2071,7 +2882,7 @@ fn main() {
         // hash-map iteration order (graphs) and thread schedules are not functions of the seed:
         // repeat the case until it fails again (bounded)
         let tries = match rp["part"].as_str().unwrap_or("") {
-            "threads" => 40,
+            "threads" | "coord-threads" => 40,
             "graph4" | "graphN" | "graph-prog" => 60,
             _ => 3,
         };
@@ -2083,6 +2894,8 @@ fn main() {
                 "locks-seq" => locks_seq_case(s, &mut total),
                 "coord" => coord_case(s, &mut total),
                 "threads" => threads_case(s, &mut total),
+                "participant" => participant_case(s, &mut total),
+                "coord-threads" => coord_threads_case(s, &mut total),
                 other => {
                     total.inconclusive(&format!("unknown replay part {:?}", other));
                     true
@@ -2139,6 +2952,24 @@ fn main() {
             rep.samples.truncate(2);
             total.merge(rep);
         }
+        if want("participant") {
+            let n = args.by_tier(3_000u64, 150_000u64);
+            let mut rep = par_cases(th, args.seed ^ 0x66, n, args.budget(60, 180), |_i, s, r| {
+                participant_case(s, r);
+            });
+            rep.samples.truncate(2);
+            total.merge(rep);
+        }
+        if want("coord-threads") {
+            // every case spawns 3-6 OS threads of its own
+            let outer = (th / 3).max(1);
+            let n = args.by_tier(160u64, 12_000u64);
+            let mut rep = par_cases(outer, args.seed ^ 0x77, n, args.budget(30, 300), |_i, s, r| {
+                coord_threads_case(s, r);
+            });
+            rep.samples.truncate(2);
+            total.merge(rep);
+        }
         if want("threads") {
             // every case spawns 3-7 OS threads of its own
             let outer = (th / 3).max(1);
@@ -2182,6 +3013,25 @@ fn main() {
             floors.push(("coord_op[remote_prepare]", 500));
             floors.push(("coord_completions[commit]", 100));
             floors.push(("coord_completions[abort]", 300));
+            floors.push(("coord_retransmitted_prepares_answered_yes", 150));
+            floors.push(("coord_completions_after_retransmitted_prepare", 80));
+        }
+        if want("participant") {
+            floors.push(("participant_programs", 500));
+            floors.push(("participant_retransmitted_prepares_answered_yes", 500));
+            floors.push(("participant_completions_after_retransmitted_prepare", 300));
+            floors.push(("participant_conflict_votes", 500));
+            floors.push(("participant_timeouts", 200));
+            floors.push(("participant_op[save_load]", 100));
+        }
+        if want("coord-threads") {
+            floors.push(("cthread_cases", 10));
+            floors.push(("cthread_grants", 1_000));
+            floors.push(("cthread_refusals", 200));
+            floors.push(("cthread_sweeps", 1_000));
+            floors.push(("cthread_prepared_transactions_spanning_a_sweep", 300));
+            floors.push(("cthread_pending_lock_checks", 2_000));
+            floors.push(("cthread_orphans_swept_checked", 50));
         }
         if want("threads") {
             floors.push(("thread_cases", 10));
@@ -2191,7 +3041,7 @@ fn main() {
     }
     let meta = Meta {
         property: "C12",
-        rule: "graph cases are distinct by edge set (non-trivial: >= 1 edge for the exhaustive 4-transaction family, >= 2 edges otherwise); lock / coordinator programs are distinct by the hash of their executed call trace and non-trivial if at least one request was refused because of a held key; threaded cases are distinct by the hash of the global event order (thread, call kind, granted?) and non-trivial if at least one request was refused. graph4 is exhaustive: all 4 096 digraphs on 4 transactions x 3 (thorough: 12) labelings/insertion orders x (1 bare WaitForGraph + 5 detector configurations).",
+        rule: "graph cases are distinct by edge set (non-trivial: >= 1 edge for the exhaustive 4-transaction family, >= 2 edges otherwise); lock / coordinator programs are distinct by the hash of their executed call trace and non-trivial if at least one request was refused because of a held key; participant programs likewise (non-trivial: at least one PREPARE refused because of a held key and at least one completion); threaded cases are distinct by the hash of the global event order (thread, call kind, granted?) and non-trivial if at least one request was refused (coord-threads: and at least one orphan sweep ran). graph4 is exhaustive: all 4 096 digraphs on 4 transactions x 3 (thorough: 12) labelings/insertion orders x (1 bare WaitForGraph + 5 detector configurations).",
         assumptions: vec![
             "the recorded wait-for relation is the set of add_wait calls made minus those removed; self-waits are not recorded (add_wait documents them as invalid)".into(),
             "'reports a cycle exactly when' is judged as existence (some cycle reported <=> the reference finds a non-trivial SCC); every reported cycle must be a simple cycle of recorded edges and the victim one of its members; max_cycle_length is set to 64 (> 8)".into(),
@@ -2200,6 +3050,9 @@ fn main() {
             "a refused try_lock_with_wait_tracking must leave requester -> holder in the wait-for graph for every definitely-live holder (this is what makes 'deadlocks detected' meaningful; documented on the method)".into(),
             "a transaction ends the way the repo ends one: release(tx), or release_by_handle[_with_wait_cleanup] for every handle it was granted (what DistributedTxCoordinator::commit/abort do); when no lock carries any of its handles any more (never granted, released earlier, swept, taken over) release_by_handle_with_wait_cleanup cannot know the owner, so in the LockManager-level parts the harness removes the transaction from the graph itself (counter graph_cleanup_left_to_caller) and the real caller, the coordinator, is judged on exactly this in part coord".into(),
             "in the threaded part the shadow owner mark is set after a grant returned and cleared before the release call; with the 40 ms timeout a collision only counts if the earlier holder's grant is provably younger than half the timeout".into(),
+            "a PREPARE may be delivered more than once (retransmission / duplicate delivery of the identical request) while the transaction is pending at the coordinator, and at any time at a participant; two different PREPAREs of one transaction are not generated. A transaction's locks are what its PREPAREs were granted, however often; 'none of its locks remain' is judged on all of them".into(),
+            "participant: the requested key set of a PREPARE is the set of stored entries its operations write (Transaction::storage_key); a prepared transaction has timed out when cleanup_stale / recover says so, and in any case when its latest PREPARE was answered more than the timeout before the sweep began (harness clock), whether or not the sweep lists it".into(),
+            "coord-threads: requests carry zero deltas (the semantic stage never refuses, so nothing but a completion may drop a pending transaction's locks); prepare timeout 1 h and 30 s lock lease against cases of milliseconds (a lock older than 8 s is not judged: inconclusive); release_orphaned_locks never overlaps commit / abort / complete_abort / cleanup_timeouts (harness gate: the two sides take `pending` and the lock tables in opposite orders), it overlaps begin / handle_prepare / record_vote and the observers".into(),
         ],
         floors,
         exhaustive,
